@@ -20,6 +20,7 @@ EXEMPT = {
     ("Extension.lib", "self._lib"): "idempotent lazy load of the native library, not model state",
     ("copy_", "dest._data"): "aten.copy_ mutates its destination by definition",
     ("copy_", "dest._scale"): "aten.copy_ mutates its destination by definition",
+    ("copy_", "dest"): "aten.copy_ mutates its destination by definition (plain destination)",
 }
 HOOK_REGISTRARS = ("register_module_forward_pre_hook", "register_module_forward_hook", "register_module_backward_hook", "register_module_full_backward_hook",
                    "register_module_full_backward_pre_hook", "register_module_buffer_registration_hook", "register_module_module_registration_hook",
